@@ -145,3 +145,36 @@ pub fn programs() -> Vec<(&'static str, Prog)> {
     }
     out
 }
+
+/// `n` blocks one after the other in ONE frame (0 = top level, 1 = function body, 2 = method
+/// body), each with a variable of its own; the first one shadows `a`, later ones read and assign
+/// the outer `a`.  Scope bookkeeping that is narrower than the number of blocks in a frame, or
+/// that reuses an identifier of a closed block, shows as a wrong value.
+pub fn many_scopes(n: usize, frame: usize) -> Prog {
+    let mut body: Vec<E> = vec![let_("a", E::Int(1))];
+    body.push(E::Block(vec![let_("a", E::Int(100)), let_("b", E::Int(7)), print("in ~ ~\\n", vec![var("a"), var("b")])]));
+    for i in 0..n.saturating_sub(6) {
+        let f = format!("f{}", i);
+        body.push(E::Block(vec![let_(&f, E::Int(i as i32)), var(&f)]));
+        if i == n / 2 {
+            // half-way: the outer variable is still the one in sight
+            body.push(E::Block(vec![print("mid ~\\n", vec![var("a")])]));
+        }
+    }
+    body.push(E::Block(vec![print("late ~\\n", vec![var("a")])]));
+    body.push(E::Block(vec![assign("a", E::Int(5))]));
+    body.push(print("after ~\\n", vec![var("a")]));
+    body.push(E::Block(vec![let_("a", E::Int(9)), E::Block(vec![print("inner ~\\n", vec![var("a")])])]));
+    body.push(print("end ~\\n", vec![var("a")]));
+    match frame {
+        0 => body,
+        1 => vec![E::Fun("host".into(), vec!["p".into()], bx(E::Block(body))), call("host", vec![E::Int(0)])],
+        _ => vec![
+            let_("holder", E::Object(None, vec![Member::Method("host".into(), vec!["p".into()], E::Block(body))])),
+            mcall(var("holder"), "host", vec![E::Int(0)]),
+        ],
+    }
+}
+
+pub const MANY_SCOPES: [usize; 10] = [60, 200, 254, 255, 256, 257, 258, 300, 513, 1000];
+
